@@ -105,6 +105,9 @@ def main():
             row = {"id": m["id"], "property": m["property"], "suite": "n/a", "caught": False, "build_error": False, "seconds": 0, "first_reason": "ERROR " + str(e)[:200], "what": m.get("what", "")}
         finally:
             shutil.rmtree(d, ignore_errors=True)
+            import glob, hashlib
+            for old in glob.glob(os.path.join(V, "build", "*-alt" + hashlib.sha1(d.encode()).hexdigest()[:8] + "*")):
+                shutil.rmtree(old, ignore_errors=True)
         rows.append(row)
         print("%-28s %-4s suite=%-13s caught=%-5s %6.1fs  %s" % (row["id"], row["property"], row["suite"], row["caught"], row["seconds"], row["first_reason"][:110]), flush=True)
     if a.out:
